@@ -790,15 +790,26 @@ class Z3Dom:
         timeout_ms = int(timeout_ms * SCALE)
         s.set("timeout", timeout_ms)
         ctx = z3.main_ctx()
-        timer = threading.Timer(timeout_ms / 1000.0 + 1.0, ctx.interrupt)
-        timer.start()
+        done = threading.Event()
+
+        def watchdog():
+            # one interrupt can be lost (the cancel flag is reset when a new tactic starts, and some phases poll it
+            # rarely): keep interrupting until the call has returned
+            if done.wait(timeout_ms / 1000.0 + 1.0):
+                return
+            while not done.is_set():
+                ctx.interrupt()
+                if done.wait(0.5):
+                    return
+        th = threading.Thread(target=watchdog, daemon=True)
+        th.start()
         try:
             try:
                 return s.check()
             except z3.Z3Exception:
                 return z3.unknown
         finally:
-            timer.cancel()
+            done.set()
 
     def quick_unsat(self, formulas, timeout_ms=3000):
         import time, os
